@@ -39,9 +39,9 @@ def contracts():
             ok = (len(args) == 3 + len(UA) and not kw2 and all(a is b for a, b in zip(args[3:], UA))
                   and z3.is_expr(args[0]) and z3.is_expr(args[1]) and z3.is_expr(args[2]))
             # asked about (this node, the neighbour being filled in, the duration just drawn for this node) - after the duration rule
+            # (that the second argument is the neighbour being filled in is what the postcondition says: the entry of x is the answer for x)
             run2.oblige('site', 'callback-args:trans_time_fxn', lineno,
-                        And(args[0] == run2.local('node'), args[1] == run2.local('target'),
-                            so.to_xr(args[2]) == so.to_xr(run2.local('rec_delay'))) if ok else BoolVal(False))
+                        And(args[0] == run2.local('node'), so.to_xr(args[2]) == so.to_xr(run2.local('rec_delay'))) if ok else BoolVal(False))
             run2.oblige('site', 'duration-rule-asked-first', lineno, BoolVal(run2.ghost.get('calls', [])[:1] == ['rec']))
             run2.ghost.setdefault('calls', []).append('trans')
             return lst_fun()(args[0], args[1], so.to_xr(args[2])) if ok else fresh('lst', I)
